@@ -1,5 +1,81 @@
-(** C33 — secure random functions (statements only; proofs in theories/RandomFns.v). *)
+(** C33 — secure random functions stay in range/shape (statements only; proofs in theories/RandomFns.v).
+    All theorems are for ALL bit tapes; [Some] excludes exhaustion of the tape / restart fuel. *)
 Require Import MPyC.RandomFns.
-From Coq Require Import ZArith List.
+From Coq Require Import ZArith List Permutation.
 Import ListNotations.
 Local Open Scope nat_scope.
+
+(** random_unit_vector: length n, entries 0/1 with sum 1 ... *)
+Theorem C33_unit_vector_shape :
+  forall (fuel : nat) (n : Z) (tp : tape) (u : list Z) (tp' : tape),
+    (1 <= n)%Z -> bits tp -> random_unit_vector fuel n tp = Some (u, tp') ->
+    length u = Z.to_nat n /\ (bits u /\ zsum u = 1%Z) /\ bits tp'.
+Proof. exact unit_vector_shape. Qed.
+Print Assumptions C33_unit_vector_shape.
+
+(** ... i.e. exactly one 1, rest 0. *)
+Theorem C33_unit_vector_onehot :
+  forall (fuel : nat) (n : Z) (tp : tape) (u : list Z) (tp' : tape),
+    (1 <= n)%Z -> bits tp -> random_unit_vector fuel n tp = Some (u, tp') ->
+    exists j, j < Z.to_nat n /\ u = repeat 0%Z j ++ 1%Z :: repeat 0%Z (Z.to_nat n - 1 - j).
+Proof. exact unit_vector_onehot. Qed.
+Print Assumptions C33_unit_vector_onehot.
+
+(** shuffle / random_permutation: a permutation of the input (Fisher-Yates with one-hot vectors = swaps). *)
+Theorem C33_shuffle_perm :
+  forall (fuel : nat) (x : list Z) (tp : tape) (r : list Z) (tp' : tape),
+    bits tp -> shuffle fuel x tp = Some (r, tp') -> Permutation r x /\ bits tp'.
+Proof. exact shuffle_perm. Qed.
+Print Assumptions C33_shuffle_perm.
+
+(** random_derangement: a permutation of x with y[i] <> x[i] at every position. *)
+Theorem C33_derangement_no_fixed_point :
+  forall (rounds fuel : nat) (x : list Z) (tp : tape) (y : list Z) (tp' : tape),
+    bits tp -> random_derangement rounds fuel x tp = Some (y, tp') ->
+    Permutation y x /\ (forall i, i < length x -> nth i y 0%Z <> nth i x 0%Z).
+Proof. exact random_derangement_ok. Qed.
+Print Assumptions C33_derangement_no_fixed_point.
+
+(** sample, population branch: k elements that are a sub-selection (with multiplicity) of the population. *)
+Theorem C33_sample_pop_subselection :
+  forall (fuel : nat) (pop : list Z) (k : nat) (tp : tape) (r : list Z) (tp' : tape),
+    k <= length pop -> bits tp -> sample_pop fuel pop k tp = Some (r, tp') ->
+    length r = k /\ exists rest, Permutation (r ++ rest) pop.
+Proof. exact sample_pop_subselection. Qed.
+Print Assumptions C33_sample_pop_subselection.
+
+(** choice returns a member of the sequence. *)
+Theorem C33_choice_member :
+  forall (fuel : nat) (seq : list Z) (tp : tape) (v : Z) (tp' : tape),
+    bits tp -> choice fuel seq tp = Some (v, tp') -> In v seq.
+Proof. exact choice_member. Qed.
+Print Assumptions C33_choice_member.
+
+(** getrandbits (and random, as scaled integer): a k-bit value. *)
+Theorem C33_getrandbits_range :
+  forall (k : nat) (tp : tape) (v : Z) (tp' : tape),
+    bits tp -> getrandbits k tp = Some (v, tp') -> (0 <= v < 2 ^ Z.of_nat k)%Z /\ bits tp'.
+Proof. exact getrandbits_range. Qed.
+Print Assumptions C33_getrandbits_range.
+
+(** Non-vacuity: concrete tapes on which the functions return [Some], incl. a restart. *)
+Example C33_nonvacuous :
+  bits [1; 0; 1; 1; 0; 0; 0]%Z /\
+  random_unit_vector 100 5 [1; 0; 1; 1; 0; 0; 0]%Z = Some ([0; 0; 1; 0; 0]%Z, [0%Z]) /\
+  shuffle 100 [10; 20; 30]%Z [1; 0; 0; 1; 1; 1]%Z = Some ([20; 30; 10]%Z, [1; 1; 1]%Z) /\
+  random_derangement 5 100 [3; 9; 5]%Z [0; 0; 1; 1; 0; 0]%Z = Some ([5; 3; 9]%Z, []) /\
+  sample_pop 100 [3; 9; 5; 1]%Z 2 [1; 0; 0; 1]%Z = Some ([9; 5]%Z, []) /\
+  choice 100 [5; 7; 9]%Z [1; 0]%Z = Some (7%Z, []) /\
+  getrandbits 3 [1; 0; 1]%Z = Some (5%Z, []).
+Proof.
+  split; [repeat constructor; (left; reflexivity) || (right; reflexivity)|].
+  vm_compute. repeat split; reflexivity.
+Qed.
+
+(** The documented bound of uniform fails for a degenerate interval: the model (as the code) returns a+1 unit. *)
+Theorem C33_uniform_bounds_refuted :
+  exists (a b : Z) (tp : tape), bits tp /\ (a <= b)%Z /\
+    exists v, uniform_fxp 10 a b tp = Some (v, []) /\ (b < v)%Z.
+Proof. exists 16%Z, 16%Z, [1%Z]. split; [repeat constructor; right; reflexivity|]. split; [reflexivity|].
+  exists 17%Z. split; reflexivity. Qed.
+Print Assumptions C33_uniform_bounds_refuted.
